@@ -3,7 +3,7 @@ from spec import *
 UNIT = Unit(
     name="feemul",
     prelude=["core.rs", "state_abs.rs"],
-    lemmas=["feemul.rs"],
+    lemmas=["coinsview.rs", "feemul.rs"],
     items=[
         TypeItem("src/state.rs", "struct", "UnsealedState"),
         Fn("src/state.rs", "move_action_fee_multiplier", impl=r"UnsealedState", home="C17",
